@@ -70,7 +70,12 @@ fn gen_timeout(rng: &mut Rng, p_none: u32, p_zero: u32) -> Option<u64> {
     } else if x < p_none + p_zero {
         Some(0)
     } else {
-        Some(small_ms(rng))
+        // boundary values: whole seconds and "practically no timeout"
+        Some(match rng.below(100) {
+            0..=3 => *rng.pick(&[1000u64, 2000]),
+            4..=5 => u64::MAX,
+            _ => small_ms(rng),
+        })
     }
 }
 
@@ -176,8 +181,12 @@ pub fn gen_managed(rng: &mut Rng, cfg: &GenCfg) -> MScenario {
     let runtime = if cfg.no_runtime_calls {
         // C10: pool-level timeouts without runtime must be refused by build()
         if any_pool_t { rng.below(100) < 90 } else { rng.coin() }
-    } else {
+    } else if any_pool_t {
         true
+    } else {
+        // every other profile: a minority of pools runs without runtime (per-call timeouts on
+        // such a pool end in NoRuntimeSpecified, with its own error paths)
+        rng.below(100) >= 12
     };
     let nh = |rng: &mut Rng| -> Vec<bool> {
         let n = *rng.pick(&[0usize, 0, 0, 1, 1, 2, 3]);
@@ -251,7 +260,7 @@ pub fn gen_managed(rng: &mut Rng, cfg: &GenCfg) -> MScenario {
                     let t = if rng.below(100) < 55 {
                         GetT::Inherit
                     } else {
-                        let allow_t = cfg.timeouts && (runtime || cfg.no_runtime_calls);
+                        let allow_t = cfg.timeouts;
                         GetT::Explicit {
                             wait: if allow_t { gen_timeout(rng, 40, 30) } else if rng.coin() { Some(0) } else { None },
                             create: if allow_t { gen_timeout(rng, 70, 0) } else { None },
